@@ -1354,6 +1354,10 @@ class Interp:
                     inner = self.deref_val(st, v[2][0])
                     v = some(inner)
             return [(OK, v, st)]
+        if "From<u8>" in callee and "char" in callee and args:
+            b = self.deref_val(st, args[0])
+            if b[0] == "int" and isinstance(b[1], int) and 0 <= b[1] < 256:
+                return [(OK, ("char", chr(b[1])), st)]
         if callee == "core::ops::try_trait::Try::branch" or callee.endswith("as core::ops::try_trait::Try>::branch"):
             v = self.deref_val(st, args[0])
             CONT_ = "core::ops::control_flow::ControlFlow::Continue"
@@ -1447,6 +1451,22 @@ class Interp:
             if v[0] == "enum" and v[1] == SOME:
                 return self.apply(args[1], [v[2][0]], st, n)
             return [(OK, none(), st)] + self.apply(args[1], [unk("and_then")], st, n)
+        if callee == "core::option::Option::<T>::filter":
+            v = self.deref_val(st, args[0])
+            if v[0] == "enum" and v[1] == NONE:
+                return [(OK, v, st)]
+            if v[0] == "enum" and v[1] == SOME:
+                s1, p1 = self.newtemp(st, v[2][0])
+                out = []
+                for ctl, b, s2 in self.apply(args[1], [("ref", p1)], s1, n):
+                    b = self.deref_val(s2, b) if ctl == OK else b
+                    if ctl != OK:
+                        out.append((ctl, b, s2))
+                    elif b[0] == "bool":
+                        out.append((OK, v if b[1] else none(), s2))
+                    else:
+                        out += [(OK, v, s2), (OK, none(), s2)]
+                return out
         if callee == "core::option::Option::<T>::or_else":
             v = self.deref_val(st, args[0])
             if v[0] == "enum" and v[1] == SOME:
